@@ -105,6 +105,7 @@ func LoadRefSpec(path string, basePathFlag string, cors bool) (*RefSpec, error) 
 	if err := yaml.Unmarshal(data, &raw); err != nil {
 		return nil, fmt.Errorf("yaml: %w", err)
 	}
+	raw, _ = normalizeYAML(raw).(map[string]any)
 	rs := &RefSpec{Raw: raw, Schemes: map[string]RefScheme{}, Cors: cors}
 	// base path
 	rs.BasePath = basePathFlag
@@ -368,4 +369,28 @@ func (rs *RefSpec) RefCORS(tpl string) (methods []string, headers []string, hasO
 		}
 	}
 	return
+}
+
+// normalizeYAML: maps with non-string keys (status codes written as integers)
+// become map[string]any.
+func normalizeYAML(v any) any {
+	switch x := v.(type) {
+	case map[string]any:
+		for k, e := range x {
+			x[k] = normalizeYAML(e)
+		}
+		return x
+	case map[any]any:
+		out := map[string]any{}
+		for k, e := range x {
+			out[fmt.Sprint(k)] = normalizeYAML(e)
+		}
+		return out
+	case []any:
+		for i, e := range x {
+			x[i] = normalizeYAML(e)
+		}
+		return x
+	}
+	return v
 }
